@@ -84,6 +84,7 @@ func (dht *IpfsDHT) handleGetValue(ctx context.Context, p peer.ID, pmes *pb.Mess
 		}
 
 		resp.CloserPeers = pb.PeerInfosToPBPeers(dht.host.Network(), closestInfos)
+		fitCloserPeers(resp)
 	}
 
 	return resp, nil
@@ -161,7 +162,29 @@ func (dht *IpfsDHT) handleFindPeer(ctx context.Context, from peer.ID, pmes *pb.M
 	}
 
 	resp.CloserPeers = pb.PeerInfosToPBPeers(dht.host.Network(), withAddresses)
+	fitCloserPeers(resp)
 	return resp, nil
+}
+
+// closerPeersField is the protobuf field number of Message.closer_peers (see
+// pb/dht.proto).
+const closerPeersField protowire.Number = 8
+
+// fitCloserPeers drops closer-peer records from the end of resp.CloserPeers
+// (they are sorted nearest first, so the farthest go) until the serialized
+// response fits network.MessageSizeMax. Every record is bounded, but their
+// number is the configured bucket size: with a very large bucket size and
+// peers that advertise many addresses the records alone could exceed what the
+// requester's reader accepts, which would lose the whole response.
+func fitCloserPeers(resp *pb.Message) {
+	size := proto.Size(resp)
+	tagSize := protowire.SizeTag(closerPeersField)
+	for size > network.MessageSizeMax && len(resp.CloserPeers) > 0 {
+		last := len(resp.CloserPeers) - 1
+		size -= tagSize + protowire.SizeBytes(proto.Size(resp.CloserPeers[last]))
+		resp.CloserPeers[last] = nil
+		resp.CloserPeers = resp.CloserPeers[:last]
+	}
 }
 
 // providerPeersField is the protobuf field number of Message.provider_peers
@@ -189,6 +212,7 @@ func (dht *IpfsDHT) handleGetProviders(ctx context.Context, p peer.ID, pmes *pb.
 	if closestPeers != nil {
 		infos := peerstore.AddrInfos(dht.peerstore, closestPeers)
 		resp.CloserPeers = pb.PeerInfosToPBPeers(dht.host.Network(), infos)
+		fitCloserPeers(resp)
 	}
 
 	// setup providers
